@@ -53,6 +53,28 @@ def handleCount (args : List String) : Option String := do
       some s!"stats {s.total} {s.code} {s.comment} {s.blank} {s.ignored} {String.ofList (cs.map classChar)}"
   | _ => none
 
+def showClasses (syn : Syntax) (src : List Char) : String :=
+  match classes syn src with
+  | none => "ignored-file"
+  | some cs => if cs.isEmpty then "empty" else String.ofList (cs.map classChar)
+
+/-- text of `lines` with `ins` inserted before line index `k` (lines joined by `\n`, final newline) -/
+def insertLine (lines : List (List Char)) (k : Nat) (ins : List Char) : List Char :=
+  let ls := lines.take k ++ [ins] ++ lines.drop k
+  ls.foldr (fun l acc => l ++ '\n' :: acc) []
+
+/-- `insert <syntax> <k> <inserted line> <n> <line>…`: classes before and after the insertion -/
+def handleInsert (args : List String) : Option String := do
+  let (syn, rest) ← parseSyntax args
+  match rest with
+  | k :: ins :: n :: ls =>
+    let (lines, rest') ← parseStrs (← n.toNat?) ls
+    if !rest'.isEmpty then none else
+    let before := lines.foldr (fun l acc => l ++ '\n' :: acc) []
+    let after := insertLine lines (← k.toNat?) (← decodeStr ins)
+    some s!"{showClasses syn before} {showClasses syn after}"
+  | _ => none
+
 /-- `find-start <syntax> <line>` -/
 def handleFindStart (args : List String) : Option String := do
   let (syn, rest) ← parseSyntax args
